@@ -355,8 +355,9 @@ def check_solver_options(ctx: Ctx, F: IlpFacts, rule: str):
                 tgt, key = node.func.value.value, "*"
                 if node.func.attr != "update" and node.args and isinstance(node.args[0], ast.Constant):
                     key = node.args[0].value
-                elif node.func.attr == "update" and node.args and isinstance(node.args[0], ast.Dict) and all(isinstance(k, ast.Constant) for k in node.args[0].keys):
-                    ks = [k.value for k in node.args[0].keys] + [k.arg for k in node.keywords]
+                elif node.func.attr == "update" and (not node.args or (isinstance(node.args[0], ast.Dict) and all(isinstance(k, ast.Constant) for k in node.args[0].keys))) \
+                        and all(k.arg is not None for k in node.keywords):
+                    ks = ([k.value for k in node.args[0].keys] if node.args else []) + [k.arg for k in node.keywords]
                     key = next((k for k in ks if k in _STOPPING_OPTIONS), next((k for k in ks if k not in _QUIET_OPTIONS), ks[0] if ks else "*"))
             if tgt is None:
                 continue
